@@ -473,7 +473,12 @@ class Set(ProxyValue):
 
     def get_hash(self, data: Optional[bytes] = None) -> str:
         # Sort the set to ensure stable serialization and hashing.
-        bytes = pickle_dumps(sorted(self.instance))
+        try:
+            items = sorted(self.instance)
+        except builtins.TypeError:
+            # Elements without a total order (mixed types, lazy Expressions): order by element hash.
+            items = sorted(self.instance, key=get_type_registry().get_hash)
+        bytes = pickle_dumps(items)
 
         # Use a unique tag to distinguish from hashing a list.
         return hash_tag_bytes("Value.set", bytes)
